@@ -35,6 +35,7 @@ def main():
     ap.add_argument('--replay')
     ap.add_argument('--no-evidence', action='store_true')
     ap.add_argument('--verbose', action='store_true')
+    ap.add_argument('--survey', action='store_true', help='list violation signatures, no minimisation/verdict')
     ap.add_argument('--digests', type=int, help='print {run index: digest} for the first N runs and exit')
     ap.add_argument('--reverse', action='store_true', help='(with --digests) execute runs in reverse order')
     args = ap.parse_args()
@@ -74,7 +75,8 @@ def main():
     for part in spec['parts']:
         frac = part.get('frac', 1.0)
         b = runner.run_batch(prop, part['scenario'], tier, base_seed, max(1, int(n_runs * frac)),
-                             budget * frac, jobs=args.jobs, src=SRC, chunk=part.get('chunk', 8))
+                             budget * frac, jobs=args.jobs, src=SRC, chunk=part.get('chunk', 8),
+                             survey=args.survey)
         for ln in b['lines']:
             print(ln)
         total_viol += b['new_violations']
